@@ -271,6 +271,43 @@ where
   }
 }
 
+/// Upper bound on what is reserved up front for a length announced in a CBOR
+/// head. The announced length comes from untrusted input and may exceed the
+/// bytes that actually follow, so buffers grow as data arrives instead.
+const MAX_PREALLOC: usize = 4096;
+
+/// Read exactly `n` payload bytes into `buf` without trusting `n` for the
+/// allocation. Short payloads (the common case) get one exact buffer; for a
+/// longer announced length the buffer grows by `MAX_PREALLOC` bytes at a time
+/// as data arrives, so a truncated item fails with an I/O error after at most
+/// one step instead of reserving `n` bytes.
+fn read_payload<R: ciborium_io::Read>(
+  decoder: &mut Decoder<R>,
+  n: usize,
+  buf: &mut Vec<u8>,
+) -> Result<(), DecodeError>
+where
+  ciborium_ll::Error<R::Error>: Into<DecodeError>,
+{
+  let mut filled = 0;
+  while filled < n {
+    let step = (n - filled).min(MAX_PREALLOC);
+    let mut chunk = vec![0u8; step];
+    decoder.read_exact(&mut chunk).map_err(|e| {
+      let io_err: ciborium_ll::Error<R::Error> = ciborium_ll::Error::Io(e);
+      io_err.into()
+    })?;
+    if filled == 0 {
+      // short payloads (the common case) are read in one piece, no copy
+      *buf = chunk;
+    } else {
+      buf.extend_from_slice(&chunk);
+    }
+    filled += step;
+  }
+  Ok(())
+}
+
 fn read_bytes<R: ciborium_io::Read>(
   decoder: &mut Decoder<R>,
   len: Option<usize>,
@@ -280,11 +317,8 @@ where
 {
   match len {
     Some(n) => {
-      let mut buf = vec![0u8; n];
-      decoder.read_exact(&mut buf).map_err(|e| {
-        let io_err: ciborium_ll::Error<R::Error> = ciborium_ll::Error::Io(e);
-        io_err.into()
-      })?;
+      let mut buf = Vec::new();
+      read_payload(decoder, n, &mut buf)?;
       Ok(buf)
     }
     None => {
@@ -315,11 +349,8 @@ where
 {
   match len {
     Some(n) => {
-      let mut buf = vec![0u8; n];
-      decoder.read_exact(&mut buf).map_err(|e| {
-        let io_err: ciborium_ll::Error<R::Error> = ciborium_ll::Error::Io(e);
-        io_err.into()
-      })?;
+      let mut buf = Vec::new();
+      read_payload(decoder, n, &mut buf)?;
       String::from_utf8(buf).map_err(|_| DecodeError::Syntax(decoder.offset()))
     }
     None => {
@@ -350,7 +381,7 @@ where
 {
   match len {
     Some(n) => {
-      let mut items = Vec::with_capacity(n);
+      let mut items = Vec::with_capacity(n.min(MAX_PREALLOC));
       for _ in 0..n {
         items.push(decode_value(decoder)?);
       }
@@ -382,7 +413,7 @@ where
 {
   match len {
     Some(n) => {
-      let mut entries = Vec::with_capacity(n);
+      let mut entries = Vec::with_capacity(n.min(MAX_PREALLOC));
       for _ in 0..n {
         let key = decode_value(decoder)?;
         let val = decode_value(decoder)?;
